@@ -3,6 +3,8 @@
 
 mod c0809;
 mod c12;
+mod c13;
+mod tool_emit;
 mod util;
 
 use vcommon::Args;
@@ -13,6 +15,8 @@ fn main() {
     match args.prop.as_str() {
         "C08" | "C09" => c0809::main(args),
         "C12" => c12::main(args),
+        "C13" => c13::main(args),
+        "TOOL_EMIT" => tool_emit::main(args),
         p => {
             eprintln!("mon_text: unknown property {p}");
             std::process::exit(2);
